@@ -572,7 +572,9 @@ fn kind_is_scale_down(_before: &MetaStore, kind: &str, _toks: &[&str]) -> bool {
 // generator
 // ---------------------------------------------------------------------------------------------
 
-struct Gen { rng: Rng, next_proxy: usize, hosts: usize, big: bool, ordered: bool, stats: Vec<&'static str> }
+struct Gen { rng: Rng, next_proxy: usize, hosts: usize, big: bool, ordered: bool, stats: Vec<&'static str>,
+    /// descriptors of migrations seen pending earlier in this history (for delayed duplicate commits)
+    seen_tasks: Vec<(String, u64, String)>, has_snap: bool }
 
 impl Gen {
     /// the `index` token of an `add_proxy` line. Ordered mode: mostly the smallest index no registered proxy
@@ -622,6 +624,7 @@ impl Gen {
         let in_cluster: Vec<String> = proxies_in_clusters(store).into_iter().collect();
         let free: Vec<String> = proxies.iter().filter(|a| store.all_proxies[*a].cluster.is_none()).cloned().collect();
         let pend = Self::pending(store);
+        for t in pend.iter() { if !self.seen_tasks.contains(t) { self.seen_tasks.push(t.clone()); if self.seen_tasks.len() > 64 { self.seen_tasks.remove(0); } } }
         for _ in 0..50 {
             let rng = &mut self.rng;
             let r = rng.below(100);
@@ -643,6 +646,10 @@ impl Gen {
                 46..=53 => { if !clusters.is_empty() { let n = rng.pick(&clusters).clone(); let cur = store.clusters.values().find(|c| c.name.to_string() == n).map(|c| c.chunks.len() * 4).unwrap_or(4) as i64;
                     let k = if cur > 4 { 4 * rng.range(1, cur / 4 - 1).max(1) } else { *rng.pick(&[0i64, 4, 6]) };
                     return if rng.chance(1, 2) { format!("scale_down {} {}", n, k) } else { format!("change_num {} {} -", n, k) }; } }
+                // a delayed duplicate of an earlier commit (HTTP retry, stalled second coordinator): the descriptor of a
+                // migration that is no longer pending - often while a later migration of the same ranges is running
+                54..=55 if !self.seen_tasks.is_empty() => { let t = rng.pick(&self.seen_tasks).clone(); if !pend.contains(&t) { self.stats.push("gen.commit.delayed_duplicate");
+                    return format!("commit {} {} {} {} {}", t.0, t.1, t.2, *rng.pick(&["M", "I"]), if rng.chance(1, 2) { "1" } else { "0" }); } }
                 54..=71 => { if !pend.is_empty() { let (n, e, rs) = rng.pick(&pend).clone();
                     let tag = *rng.pick(&["M", "M", "I", "I", "I", "N"]); let clear = if rng.chance(2, 3) { "1" } else { "0" };
                     // stale / foreign variants
@@ -659,8 +666,8 @@ impl Gen {
                 92..=93 => { if !free.is_empty() { return format!("remove_proxy {}", rng.pick(&free)); } else if !proxies.is_empty() { return format!("remove_proxy {}", rng.pick(&proxies)); } }
                 94..=96 => { if !proxies.is_empty() { let a = if rng.chance(3, 4) && !free.is_empty() { rng.pick(&free).clone() } else { rng.pick(&proxies).clone() }; return format!("add_failure {} r{} 0", a, rng.below(3)); } }
                 97 => { return format!("bump_all {}", (store.global_epoch as i64 + rng.range(-2, 20)).max(0)); }
-                98 => { return match rng.below(4) { 0 => "snap".to_string(), 1 => "restart 0".to_string(), 2 => "push_snap".to_string(), _ => format!("recover {}", (store.global_epoch as i64 + rng.range(-5, 50)).max(0)) }; }
-                _ => { if rng.chance(1, 3) { return "snap".to_string(); } if rng.chance(1, 4) { return "push_snap".to_string(); } if rng.chance(1, 2) { return "restart 0".to_string(); } if !clusters.is_empty() { return format!("scale_out_num {} {}", rng.pick(&clusters), 4 * rng.range(1, 6)); } }
+                98 => { return match rng.below(4) { 0 => { self.has_snap = true; "snap".to_string() }, 1 => "restart 0".to_string(), 2 if self.has_snap => "push_snap".to_string(), 2 => { self.has_snap = true; "snap".to_string() }, _ => format!("recover {}", (store.global_epoch as i64 + rng.range(-5, 50)).max(0)) }; }
+                _ => { if rng.chance(1, 3) { self.has_snap = true; return "snap".to_string(); } if self.has_snap && rng.chance(1, 3) { return "push_snap".to_string(); } if rng.chance(1, 2) { return "restart 0".to_string(); } if !clusters.is_empty() { return format!("scale_out_num {} {}", rng.pick(&clusters), 4 * rng.range(1, 6)); } }
             }
         }
         "add_proxy p0:1 n:1 n:2 h0".into()
@@ -676,6 +683,8 @@ fn run_case(w: &mut World, g: &mut Gen, len: usize) {
     g.ordered = g.rng.chance(1, 4);
     w.new_case(g.ordered);
     g.next_proxy = 0;
+    g.seen_tasks.clear();
+    g.has_snap = false;
     g.hosts = g.rng.range(2, 7) as usize;
     // seed some resources so that most cases reach clusters quickly
     let initial = if g.big { g.rng.range(40, 500) } else { g.rng.range(0, 14) } as usize;
@@ -736,7 +745,7 @@ fn main() {
     let args = parse_args();
     let s = Streams::new(&args);
     let mut w = World::new(s);
-    let mut g = Gen { rng: Rng::new(args.seed), next_proxy: 0, hosts: 4, big: false, ordered: false, stats: vec![] };
+    let mut g = Gen { rng: Rng::new(args.seed), next_proxy: 0, hosts: 4, big: false, ordered: false, stats: vec![], seen_tasks: vec![], has_snap: false };
     if let Some(p) = &args.replay {
         w.new_case(false);
         for l in read_lines(p) {
